@@ -60,6 +60,8 @@ func genC05Plan(r *sim.Rng, tier string) PayloadPlan {
 			it = WireItem{Type: 9, Gen: "nal_types", N: r.Intn(9), Shape: r.Intn(64)}
 			if r.Bool(0.4) {
 				it = WireItem{Type: 9, Gen: "sps_golomb", N: r.Intn(42), Shape: r.Intn(240)}
+			} else if r.Bool(0.4) {
+				it = WireItem{Type: 9, Gen: "hevc_ps_cut", N: r.Intn(64), Shape: r.Intn(6)}
 			}
 		case 13:
 			it = WireItem{Type: 9, Gen: "seqhdr_annexb", N: r.Intn(24), Shape: r.Intn(64)}
